@@ -180,6 +180,7 @@ func init() {
 			ruleSeekAbsolute(c, "C06.RESEEK")
 			ruleEntityBucketDescent(c, "C06.ENTITYBUCKET")
 			ruleLinkOwnStore(c, "C06.LINKSTORE")
+			ruleKeyPresence(c, "C06.PRESENCE")
 			// the cascade re-seeks its cursor to the id it just deleted: the Seek must land on the next referrer, not pass it
 			ruleCursorDirection(c, c.cursorTypes(), "C06.CURSORSEEK", "C06.DIRPARAM")
 			ruleCleanupPlacement(c, "C06.LINKS")
